@@ -5,6 +5,11 @@ PROPS = {
         "ax": True,
         "level": "proof",
     },
+    "C20": {
+        "vx": ["dse_coalesce"],
+        "kl": ["dse_delete_entries"],
+        "level": "proof",
+    },
     "C06": {
         "vx": ["eval_arms"],
         "kl": ["baa_kernels"],
